@@ -438,5 +438,3 @@ func (w *world) judgePower(b *blk, r *response) string {
 	}
 	return "exact"
 }
-
-var _ = sim.Hash64
